@@ -209,6 +209,25 @@ theorem collectConst_eq (c : List Ad) (src : List Val) :
   · unfold konstEval
     simp only [Cons.isRev, Bool.or_false, hrun]
 
+/-- the LITERAL shape of the emitted loop nest (`konstEvalK`: consumer code innermost, every
+    `break 'label` leaves the whole nest at once — this is what the driver executes against the real
+    macros) computes exactly what the items-then-consumer formulation `konstEval` computes; hence every
+    theorem of this file holds verbatim of `konstEvalK` -/
+theorem literal_loop_eq (c : List Ad) (cons : Cons) (src : List Val) :
+    konstEvalK c cons src = konstEval c cons src := konstEvalK_eq c cons src
+
+/-- the forward fragment, stated directly for the literal loop nest -/
+theorem literal_forward_eq_std (c : List Ad) (cons : Cons) (src : List Val)
+    (hc : hasRev c = false) (hk : cons.isRev = false) :
+    konstEvalK c cons src = stdResult c cons src := by
+  rw [literal_loop_eq]; exact konst_forward_eq_std c cons src hc hk
+
+/-- the exact characterisation, stated directly for the literal loop nest -/
+theorem literal_eq_std_normalised (c : List Ad) (cons : Cons) (src : List Val) :
+    konstEvalK c cons src =
+      iterConsume cons (stdEval (fwd c (hasRev c || cons.isRev)) (walk (hasRev c || cons.isRev) src)) := by
+  rw [literal_loop_eq]; exact konst_eq_std_normalised c cons src
+
 /-! ### F7: outside the fragments the full statement is false — of the model exactly as of the code
     (kernel-evaluated witnesses; the same programs are replayed on the implementation) -/
 
